@@ -187,6 +187,14 @@ struct SlabEngine : Engine {
 					if (p.ntasks > 1 && cnt > 300) cnt = 300;
 					o.a[1] = (int64_t)(cs - rng.below(cs / 2 + 1)); if (o.a[1] < 1) o.a[1] = 1;
 					o.a[2] = (int64_t)cnt; o.a[3] = rng.below(4);
+					if (rng.chance(2, 5)) {
+						// many slabs of one class made partial in a chosen address order: exercises the partial-slab tree
+						// (insertions in descending / ascending / random order, then repeated removal of the minimum)
+						size_t K = 3 + rng.below(tier ? 22 : 10);
+						size_t lim = (size_t)(tier ? 4000 : 1100); if (p.ntasks > 1) lim = 300;
+						while (K > 2 && per * K > lim) K--;
+						if (per * K <= lim) { o.a[2] = (int64_t)(per * K); o.a[3] = 4 + rng.below(3); }
+					}
 				}
 				else { o.kind = OP_CHURN; o.a[1] = (int64_t)gen_size(rng, P, focus, false); o.a[2] = tier ? 50 + rng.below(3000) : 10 + rng.below(300); o.a[3] = 1 + rng.below(6);
 					if (rng.chance(1, tier ? 40 : 150)) { o.a[2] = 66000 + rng.below(3000); o.a[3] = 1 + rng.below(2); o.a[1] = (int64_t)class_size((int)rng.below(3)); } } // a counter that only wraps after 2^16 allocations
@@ -731,6 +739,25 @@ struct SlabEngine : Engine {
 			if (pat == 0) for (int x : got) rel(x, 0);
 			else if (pat == 1) for (size_t i = got.size(); i-- > 0;) rel(got[i], 1);
 			else if (pat == 2) { for (size_t i = 0; i < got.size(); i += 2) rel(got[i], 0); for (size_t i = 1; i < got.size(); i += 2) rel(got[i], 0); }
+			else if (pat >= 4) {
+				// one block out of every slab, slabs taken in descending (4) / ascending (5) / random (6) address order;
+				// then drain them again (always from the lowest partial slab), twice; finally free everything
+				std::map<uint64_t, std::vector<int>> by_slab;
+				for (int x : got) { Region *r = find_region(off(blk[x].ptr)); by_slab[r ? r->base : 0].push_back(x); }
+				std::vector<uint64_t> order; for (auto &kv : by_slab) order.push_back(kv.first);
+				if (pat == 4) std::reverse(order.begin(), order.end());
+				else if (pat == 6) for (size_t i = order.size(); i > 1; i--) std::swap(order[i - 1], order[fill_rng().below(i)]);
+				for (int round = 0; round < 2; round++) {
+					std::vector<int> freed;
+					for (uint64_t s : order) { auto &v = by_slab[s]; size_t take = round ? 2 : 1; while (take-- && !v.empty()) { int x = v.back(); v.pop_back(); rel(x, 0); freed.push_back(x); } }
+					uint64_t maps1 = total_maps;
+					for (int x : freed) { Op a = op; a.kind = OP_ALLOC; a.mapfail = 0; if (!do_alloc(me, a, x, n, false)) break; progress(); }
+					if (single && faultfree && total_maps != maps1) violation("footprint", "re-allocating %zu blocks of %zu bytes that had just been freed (one or two per slab, %zu slabs) mapped %llu new region(s)", freed.size(), n, order.size(), (unsigned long long)(total_maps - maps1));
+					for (int x : freed) if (blk[x].live) { Region *r = find_region(off(blk[x].ptr)); by_slab[r ? r->base : 0].push_back(x); }
+					if (pat == 6) for (size_t i = order.size(); i > 1; i--) std::swap(order[i - 1], order[fill_rng().below(i)]);
+				}
+				for (int x : got) if (blk[x].live) rel(x, 0);
+			}
 			else { // free most, keep a few alive until the end of the run; then refill: freed memory must be reused
 				size_t keep = got.size() > 6 ? 3 : 0;
 				for (size_t i = keep; i < got.size(); i++) rel(got[i], 0);
